@@ -112,7 +112,10 @@ pub fn build_instruments(defs: &[(usize, &str, &str)]) -> IndexedInstruments {
     for (ex, base, quote) in defs {
         builder = builder.add_instrument(Instrument::spot(
             EXCHANGES[*ex],
-            format!("{ex}_{base}_{quote}"),
+            // the name does NOT start with the exchange: the alphabetical order of the internal names
+            // differs from the index order (exchange first), so a table keyed by name but addressed by
+            // position is exposed (seeded change C16d)
+            format!("{base}_{quote}_x{ex}"),
             format!("{}{}", base.to_uppercase(), quote.to_uppercase()),
             Underlying::new(*base, *quote),
             None,
